@@ -4,6 +4,7 @@
    configuration / clock [c]; [validate g p c] feeds it with the results of profile p on graph g. *)
 From ACV Require Import Base.Strs Model.Graph Model.Rules Model.Report Model.ReportRef Model.Engine.
 From ACV Require Import Proofs.ReportProofs Proofs.EngineProofs Extracted.ReportFacts.
+From ACV Require Import Model.Yaml Model.ProfileParser Proofs.TextSemantics.
 
 (* ties: conforms is computed from the violation list only; the three lists are walked in the order and with
    the level / id prefix the model uses; dateCreated and result are guarded as modelled *)
@@ -49,6 +50,12 @@ Theorem C03_severity_of_level : forall g p c o, In o (results_of (validate g p c
                 /\ In n g /\ r_focus (o_res o) = nid n /\ has_type n (v_class d) = true
                 /\ (wf_form (v_form d) = true -> lsat g true (v_form d) (nid n) = false).
 Proof. exact results_traced. Qed.
+(* from the profile TEXT: the report built for a YAML tree conforms exactly when the verdict computed from that tree holds no
+   violation-level entry (warnings and infos never matter) *)
+Theorem C03_conforms_from_text : forall defaults doc g c rp v,
+  report_from_text defaults doc g c = POk rp -> verdict defaults doc g = POk v ->
+  (rp_conforms rp = true <-> forall nm fo msg, ~ In (Violation, nm, fo, msg) v).
+Proof. exact conforms_from_text. Qed.
 Theorem C03_model_meets_spec : forall m c,
   forallb (fun r => wf_et (r_tree r)) (all_results m) = true -> spec_report m c (build_report m c) = true.
 Proof. exact model_meets_spec. Qed.
@@ -72,4 +79,5 @@ Print Assumptions C03_result_key_iff.
 Print Assumptions C03_header.
 Print Assumptions C03_config_changes_nothing_else.
 Print Assumptions C03_severity_of_level.
+Print Assumptions C03_conforms_from_text.
 Print Assumptions C03_model_meets_spec.
